@@ -1,5 +1,5 @@
 (* C05 - Rejected CTAP2 requests report exactly the status code their fault calls for. *)
-From Ctap Require Import Base Schema Wire Typed Procs Inst Tables ProcTables Finite FramingP C11P.
+From Ctap Require Import Base Schema Wire Utf8 Typed Procs Inst Tables ProcTables Finite CborItem WireP SkipP TypedP EntriesP FramingP C11P.
 Local Open Scope string_scope.
 Local Open Scope Z_scope.
 
@@ -52,6 +52,37 @@ Proof.
     specialize (G b Hb). rewrite R in G. discriminate.
 Qed.
 
+(* an otherwise well-formed parameter map (entries in any order) that omits a required parameter is
+   rejected with SerdeMissingField, i.e. MissingParameter 0x14 by c05_missing_iff - at the top level ... *)
+Theorem c05_missing_required_parameter : forall e k name s d fs entries rest fd,
+  lookup e name = Some (DStruct true s d fs) ->
+  Forall (idx_entry_ok (dec e k) fs) entries ->
+  NoDup (map en_label entries) ->
+  In fd fs -> f_opt fd = false -> ~ In (f_label fd) (map en_label entries) ->
+  blen entries < 4294967296 ->
+  dec e (S k) (TNamed name) (put_head 5 (blen entries) ++ List.concat (map enc_idx_entry entries) ++ rest)%list
+  = Err SerdeMissingField.
+Proof. exact dec_indexed_missing. Qed.
+
+(* ... and inside a nested text-keyed structure (with or without unknown members around) *)
+Theorem c05_missing_required_member : forall e k name s d fs tes rest fd,
+  lookup e name = Some (DStruct false s d fs) ->
+  Forall (txt_entry_ok (dec e k) fs) tes ->
+  NoDup (map en_label (known_entries tes)) ->
+  In fd fs -> f_opt fd = false -> ~ In (f_label fd) (map en_label (known_entries tes)) ->
+  blen tes < 4294967296 ->
+  dec e (S k) (TNamed name) (put_head 5 (blen tes) ++ List.concat (map enc_txt_entry tes) ++ rest)%list
+  = Err SerdeMissingField.
+Proof. exact dec_text_missing. Qed.
+
+(* ... and conversely a message lacking a required parameter is never accepted: an accepted indexed map
+   is one whose finishing pass found every required member *)
+Theorem c05_never_accept_incomplete : forall fs acc rec_,
+  idx_finish fs acc = Ok rec_ -> forall fd, In fd fs -> f_opt fd = false -> rget (f_label fd) acc <> None.
+Proof.
+  intros fs acc rec_ H fd Hin Ho Hn. rewrite (idx_finish_missing fs acc fd Hin Ho Hn) in H. discriminate.
+Qed.
+
 Theorem c05_empty_message : forall e, request_deserialize spec_tables e [] = RErr 0x12.
 Proof. intros e. cbn [request_deserialize]. rewrite spec_status_of_cerr. reflexivity. Qed.
 
@@ -78,6 +109,9 @@ Eval vm_compute in "ASSUMPTIONS c05_invalid_command_status". Print Assumptions c
 Eval vm_compute in "ASSUMPTIONS c05_status_range". Print Assumptions c05_status_range.
 Eval vm_compute in "ASSUMPTIONS c05_missing_iff". Print Assumptions c05_missing_iff.
 Eval vm_compute in "ASSUMPTIONS c05_invalid_command_iff". Print Assumptions c05_invalid_command_iff.
+Eval vm_compute in "ASSUMPTIONS c05_missing_required_parameter". Print Assumptions c05_missing_required_parameter.
+Eval vm_compute in "ASSUMPTIONS c05_missing_required_member". Print Assumptions c05_missing_required_member.
+Eval vm_compute in "ASSUMPTIONS c05_never_accept_incomplete". Print Assumptions c05_never_accept_incomplete.
 Eval vm_compute in "ASSUMPTIONS c05_empty_message". Print Assumptions c05_empty_message.
 Eval vm_compute in "ASSUMPTIONS c05_generated_error_tables". Print Assumptions c05_generated_error_tables.
 Eval vm_compute in "ASSUMPTIONS c05_generated_conforms". Print Assumptions c05_generated_conforms.
